@@ -807,6 +807,36 @@ services:
         - {action: rebuild, path: ./one/not-there-yet}
 `
 
+// corpusExtendsTree: three leaves sharing an intermediate service that extends a root, every level adding to the same sequences
+const corpusExtendsTree = `
+services:
+  web:
+    extends: {service: mid}
+    cap_add: [NET_RAW]
+    environment: [ROLE=web, OWN_WEB=1]
+    dns: [10.0.0.3]
+  worker:
+    extends: {service: mid}
+    cap_add: [SYS_TIME]
+    environment: [ROLE=worker, OWN_WORKER=1]
+    dns: [10.0.0.4]
+  cron:
+    extends: {service: mid}
+    cap_add: [SYS_NICE]
+    environment: [ROLE=cron]
+    dns: [10.0.0.5]
+  mid:
+    extends: {service: root}
+    cap_add: [CHOWN]
+    environment: [TIER=mid]
+    dns: [10.0.0.2]
+  root:
+    image: common
+    cap_add: [NET_ADMIN, SYS_PTRACE]
+    environment: [A=1, B=2]
+    dns: [10.0.0.1, 10.0.1.1]
+`
+
 const corpusInvalidSchema = `
 services:
   bad: {image: x, ports: {a: b}}
@@ -880,6 +910,36 @@ func corpusWide() string {
 	for i := 0; i < 13; i++ {
 		fmt.Fprintf(&sb, "      - sec%02d\n", (i*4)%13)
 	}
+	// a second service with the long spellings: typed attributes inside list items at positions 0..11
+	sb.WriteString("  wide2:\n    image: wide2\n    network_mode: none\n    ports:\n")
+	for i := 0; i < 12; i++ {
+		fmt.Fprintf(&sb, "      - {target: %d, published: \"%d\", protocol: tcp, mode: host}\n", 7000+i, 17000+i)
+	}
+	sb.WriteString("    volumes:\n")
+	for i := 0; i < 6; i++ {
+		fmt.Fprintf(&sb, "      - {type: volume, source: data%d, target: /w/a%d, read_only: true, volume: {nocopy: true}}\n", i, i)
+		fmt.Fprintf(&sb, "      - {type: tmpfs, target: /w/t%d, tmpfs: {size: %d, mode: %d}}\n", i, 1000+i, 400+i)
+	}
+	sb.WriteString("    secrets:\n")
+	for i := 0; i < 12; i++ {
+		fmt.Fprintf(&sb, "      - {source: sec%02d, target: /run/secrets/w%d, mode: %d}\n", i, i, 256+i)
+	}
+	sb.WriteString("    configs:\n")
+	for i := 0; i < 12; i++ {
+		fmt.Fprintf(&sb, "      - {source: cfg%02d, target: /etc/w%d, mode: %d}\n", i, i, 256+i)
+	}
+	sb.WriteString("    env_file:\n")
+	for i := 0; i < 12; i++ {
+		fmt.Fprintf(&sb, "      - {path: ./w%d.env, required: false}\n", i)
+	}
+	sb.WriteString("    deploy:\n      resources:\n        reservations:\n          devices:\n")
+	for i := 0; i < 12; i++ {
+		fmt.Fprintf(&sb, "            - {capabilities: [gpu], driver: d%d, count: %d}\n", i, i+1)
+	}
+	sb.WriteString("    develop:\n      watch:\n")
+	for i := 0; i < 12; i++ {
+		fmt.Fprintf(&sb, "        - {action: sync, path: ./w%d, target: /w%d, ignore: [a, b]}\n", i, i)
+	}
 	for i := 0; i < 14; i++ {
 		fmt.Fprintf(&sb, "  dep%02d:\n    image: dep\n    network_mode: none\n", i)
 	}
@@ -894,6 +954,10 @@ func corpusWide() string {
 	sb.WriteString("secrets:\n")
 	for i := 0; i < 13; i++ {
 		fmt.Fprintf(&sb, "  sec%02d: {file: ./s}\n", i)
+	}
+	sb.WriteString("configs:\n")
+	for i := 0; i < 12; i++ {
+		fmt.Fprintf(&sb, "  cfg%02d: {content: c%d}\n", i, i)
 	}
 	return sb.String()
 }
@@ -940,6 +1004,7 @@ func CorpusScns() map[string]*Scn {
 			"r2/real2/src/", "", "l2", SymlinkTo+"r2", "deep", SymlinkTo+"l2/real2",
 			"plain/src/", "", "e.env", "E=1\n", "envlink.env", SymlinkTo+"e.env"), Main: []string{"compose.yaml"}},
 		"wide":         {Files: files("compose.yaml", corpusWide(), "s", "sec"), Main: []string{"compose.yaml"}},
+		"extends-tree": {Files: files("compose.yaml", corpusExtendsTree), Main: []string{"compose.yaml"}},
 		"empties":      {Files: files("compose.yaml", corpusEmpties), Main: []string{"compose.yaml"}},
 		"legacy":       {Files: files("compose.yaml", corpusLegacy), Main: []string{"compose.yaml"}},
 		"operators":    {Files: files("compose.yaml", corpusOperators), Main: []string{"compose.yaml"}, Env: map[string]string{"SET": "set", "EMPTY": ""}},
